@@ -349,9 +349,9 @@ def install(ai: AbsInt, ctx, clip_model=True):
     ai.summaries['mido/midifiles/meta.py::decode_string'] = s_decode_string
 
     def s_miditrack(interp, args, kwargs, node):
-        if args:
-            return AList(interp.iterate(args[0], node, keep_vars=True), 'MidiTrack')
-        return AList([], 'MidiTrack')
+        r = AList(interp.iterate(args[0], node, keep_vars=True) if args else [], 'MidiTrack')
+        r.cls = ctx.p.cls(TR_MOD, 'MidiTrack')
+        return r
     ai.summaries['mido/midifiles/tracks.py::MidiTrack'] = s_miditrack
 
     def s_fix_eot(interp, args, kwargs, node):
